@@ -64,7 +64,8 @@ def run(ctx):
         if f2 is not p:
             continue
         r.inst("parse|increment")
-        d = p.describe_operand(st["rv"]["o"]) if st["rv"]["k"] == "use" else st["rv"]["k"]
+        rv_ = st["rv"]
+        d = p.describe_operand(rv_["o"]) if rv_["k"] == "use" else ("(%s %s %s)" % (p.describe_operand(rv_["a"]), rv_["op"], p.describe_operand(rv_["b"])) if rv_["k"] == "bin" else rv_["k"])
         if not ("Add" in d and "previously_consumed_byte_count" in d and "consumed_byte_count" in d.replace("previously_consumed_byte_count", "")):
             r.violate("parse|increment", f"Parser::parse sets previously_consumed_byte_count to `{d}`, expected += consumed_byte_count", p.loc())
         # the same block region returns Ok(consumed_byte_count)
